@@ -418,9 +418,11 @@ where
                 let now = SystemTime::now().try_into().expect(
                     "the system time cannot be expressed in the TSIG \"time signed\" field",
                 );
+                let transport = context.received_info.transport;
                 let algorithm = match find_tsig_algorithm_or_write_error(
                     &tsig_rr,
                     now,
+                    transport,
                     &mut context.response,
                 ) {
                     Some(algorithm) => algorithm,
@@ -432,6 +434,7 @@ where
                     algorithm,
                     &tsig_keys,
                     now,
+                    transport,
                     &mut context.response,
                 ) {
                     Some(key) => key,
@@ -443,6 +446,7 @@ where
                     algorithm,
                     key,
                     now,
+                    transport,
                     &mut context.response,
                 ) {
                     return;
@@ -610,26 +614,51 @@ fn validate_opt(opt_rr: &ReadRr, opt_ttl_field: u32) -> Option<ExtendedRcode> {
 /// [RFC 8945 § 10]: https://datatracker.ietf.org/doc/html/rfc8945#section-10
 const TSIG_FUDGE: u16 = 300;
 
+/// Adds a TSIG RR to a response, returning whether it could be added.
+///
+/// Over UDP there may not be enough room for the record within the
+/// size limit (its size is dominated by the key and algorithm names,
+/// which the requester chooses). In that case the response is instead
+/// truncated, so that the requester retries over TCP, where the record
+/// always fits.
+fn set_tsig_or_truncate(
+    response: &mut Writer,
+    transport: Transport,
+    mode: writer::TsigMode,
+    tsig_rr: PreparedTsigRr,
+) -> bool {
+    if response.set_tsig(mode, tsig_rr).is_ok() {
+        true
+    } else {
+        response.clear_rrs();
+        if transport == Transport::Udp {
+            response.set_tc(true);
+        }
+        false
+    }
+}
+
 /// Finds the [`Algorithm`] specified by a received TSIG RR. If the
 /// algorithm is not recognized, then a TSIG RR with error BADKEY is
 /// added to the response and the function returns `None`.
 fn find_tsig_algorithm_or_write_error(
     tsig_rr: &ReadTsigRr,
     now: TimeSigned,
+    transport: Transport,
     response: &mut Writer,
 ) -> Option<Algorithm> {
     if let Some(algorithm) = Algorithm::from_name(tsig_rr.algorithm()) {
         Some(algorithm)
     } else {
         response.set_rcode(Rcode::NOTAUTH);
-        response
-            .set_tsig(
-                writer::TsigMode::Unsigned {
-                    algorithm: tsig_rr.algorithm().to_owned(),
-                },
-                PreparedTsigRr::new_from_read(tsig_rr, now, TSIG_FUDGE, ExtendedRcode::BADKEY),
-            )
-            .unwrap();
+        set_tsig_or_truncate(
+            response,
+            transport,
+            writer::TsigMode::Unsigned {
+                algorithm: tsig_rr.algorithm().to_owned(),
+            },
+            PreparedTsigRr::new_from_read(tsig_rr, now, TSIG_FUDGE, ExtendedRcode::BADKEY),
+        );
         None
     }
 }
@@ -642,6 +671,7 @@ fn find_tsig_key_or_write_error<'k>(
     algorithm: Algorithm,
     tsig_keys: &'k TsigKeyMap,
     now: TimeSigned,
+    transport: Transport,
     response: &mut Writer,
 ) -> Option<&'k [u8]> {
     // We need to (a) find the key with the name specified by the
@@ -654,14 +684,14 @@ fn find_tsig_key_or_write_error<'k>(
         Some(key)
     } else {
         response.set_rcode(Rcode::NOTAUTH);
-        response
-            .set_tsig(
-                writer::TsigMode::Unsigned {
-                    algorithm: tsig_rr.algorithm().to_owned(),
-                },
-                PreparedTsigRr::new_from_read(tsig_rr, now, TSIG_FUDGE, ExtendedRcode::BADKEY),
-            )
-            .unwrap();
+        set_tsig_or_truncate(
+            response,
+            transport,
+            writer::TsigMode::Unsigned {
+                algorithm: tsig_rr.algorithm().to_owned(),
+            },
+            PreparedTsigRr::new_from_read(tsig_rr, now, TSIG_FUDGE, ExtendedRcode::BADKEY),
+        );
         None
     }
 }
@@ -679,6 +709,7 @@ fn verify_tsig_and_write_tsig_rr(
     algorithm: Algorithm,
     key: &[u8],
     now: TimeSigned,
+    transport: Transport,
     response: &mut Writer,
 ) -> bool {
     let (rcode, tsig_err, mode) =
@@ -723,13 +754,13 @@ fn verify_tsig_and_write_tsig_rr(
         };
 
     response.set_rcode(rcode);
-    response
-        .set_tsig(
-            mode,
-            PreparedTsigRr::new_from_read(tsig_rr, now, TSIG_FUDGE, tsig_err),
-        )
-        .unwrap();
-    rcode == Rcode::NOERROR
+    let tsig_added = set_tsig_or_truncate(
+        response,
+        transport,
+        mode,
+        PreparedTsigRr::new_from_read(tsig_rr, now, TSIG_FUDGE, tsig_err),
+    );
+    tsig_added && rcode == Rcode::NOERROR
 }
 
 ////////////////////////////////////////////////////////////////////////
